@@ -57,7 +57,18 @@ GenPost ==
                     q1 == IF j % 3 = 0 THEN "Existential" ELSE "Universal"
                     q2 == IF j % 5 < 2 THEN "Existential" ELSE "Universal"
                 IN <<"O", op, <<<<"Q", q1, xv, b1>>, <<"Q", q2, xv, b2>>>>>>]
-      base == lower \o pick \o sib
+      \* binary sentences whose operands are themselves parenthesised / negated / nested binaries: with the
+      \* outer parentheses dropped these strings begin with "(" and/or end with ")" without being enclosed
+      a0 == <<"A", 0, 0>>
+      a1 == <<"A", 1, 0>>
+      a2 == <<"A", 2, 0>>
+      Bi(o, x, y) == <<"O", o, <<x, y>>>>
+      sides == << a0, Bi("Conjunction", a0, a1), <<"O", "Negation", <<Bi("Disjunction", a1, a2)>>>>,
+                  Bi("Disjunction", Bi("Conjunction", a0, a1), a2), Bi("Conjunction", a2, Bi("Disjunction", a0, a1)) >>
+      deep == [j \in 1..(Len(sides) * Len(sides)) |->
+                 Bi(IF j % 2 = 0 THEN "Conjunction" ELSE "Disjunction",
+                    sides[((j - 1) \div Len(sides)) + 1], sides[((j - 1) % Len(sides)) + 1])]
+      base == lower \o pick \o sib \o deep
       sents == [j \in 1..Len(base) |-> Reop(Decorate(base[j], j % 7), j)]
       strings(s) == <<[notation |-> "polish", str |-> Render(PolishTok(Tab.polish, s), Tab.polish.ws, 0)],
                       [notation |-> "polish", str |-> Render(PolishTok(Tab.polish, s), Tab.polish.ws, 2)]>>
